@@ -129,6 +129,17 @@ int main(int argc, char** argv) {
   { void* p = calloc((size_t)-1 / 2, 4); if (p != nullptr) fail("calloc overflow returned non-NULL"); }
   { errno = 0; void* p = reallocarray(nullptr, (size_t)-1 / 2, 4); if (p != nullptr || errno != ENOMEM) fail("reallocarray overflow: %p errno %d", p, errno); }
   { void* p = malloc(0); if (p == nullptr) fail("malloc(0) returned NULL"); free(p); free(nullptr); ::operator delete(nullptr); }
+  // requests that must fail do so with the standard result in every form
+  { const size_t huge = (size_t)-1 / 2 + 4096;
+    for (size_t k = 0; k < 5000; k += 511) { void* p = pvalloc((size_t)-1 - k); if (p != nullptr) fail("pvalloc(SIZE_MAX-%zu) returned %p", k, p); }
+    if (malloc(huge) != nullptr || calloc(1, huge) != nullptr || valloc(huge) != nullptr || memalign(64, huge) != nullptr || aligned_alloc(64, huge) != nullptr) fail("an oversized request did not return NULL");
+    for (size_t a = 1; a < sizeof(void*); a *= 2) { void* p = (void*)0x1; int rc = posix_memalign(&p, a, 64); if (rc != EINVAL || p != (void*)0x1) fail("posix_memalign(alignment %zu) returned %d (expected EINVAL, *memptr untouched)", a, rc); }
+    { void* p = (void*)0x1; int rc = posix_memalign(&p, 64, huge); if (rc != ENOMEM || p != (void*)0x1) fail("posix_memalign(too large) returned %d", rc); }
+    if (::operator new(huge, std::nothrow) != nullptr) fail("operator new(nothrow) of an oversized request did not return nullptr");
+    if (::operator new[](huge, std::nothrow) != nullptr) fail("operator new[](nothrow) of an oversized request did not return nullptr");
+    if (::operator new(huge, std::align_val_t(64), std::nothrow) != nullptr) fail("operator new(align_val_t,nothrow) of an oversized request did not return nullptr");
+    if (::operator new[](huge, std::align_val_t(64), std::nothrow) != nullptr) fail("operator new[](align_val_t,nothrow) of an oversized request did not return nullptr");
+    void* keep = malloc(100); memset(keep, 7, 100); void* q = realloc(keep, huge); if (q != nullptr) fail("realloc to an oversized size returned non-NULL"); for (int i = 0; i < 100; i++) if (((char*)keep)[i] != 7) fail("failed realloc changed the block"); free(keep); }
   // C++ library and libc internal allocations end up in the same allocator
   { std::string s; for (int i = 0; i < 2000; i++) s += "abcdefgh"; must_be_ours("std::string", (void*)s.data(), s.size());
     std::vector<double> v(10000, 1.5); must_be_ours("std::vector", v.data(), v.size() * sizeof(double));
